@@ -93,14 +93,11 @@ Proof. exact header_code_is_model. Qed.
 
 (* ---- width_sound: the splitter never charges an accepted character less than the encoder emits,
         per coding, on the tables regenerated from the running code (the obligation D12 broke) ---- *)
-Theorem C07_width_sound_ascii : width_sound wd_ascii w_1byte. Proof. exact width_sound_ascii. Qed.
-Theorem C07_width_sound_latin1 : width_sound wd_latin1 w_1byte. Proof. exact width_sound_latin1. Qed.
-Theorem C07_width_sound_cyrillic : width_sound wd_cyrillic w_1byte. Proof. exact width_sound_cyrillic. Qed.
-Theorem C07_width_sound_hebrew : width_sound wd_hebrew w_1byte. Proof. exact width_sound_hebrew. Qed.
-Theorem C07_width_sound_shiftjis : width_sound wd_shiftjis w_multibyte. Proof. exact width_sound_shiftjis. Qed.
-Theorem C07_width_sound_euckr : width_sound wd_euckr w_multibyte. Proof. exact width_sound_euckr. Qed.
-Theorem C07_width_sound_ucs2 : width_sound wd_ucs2 w_utf16. Proof. exact width_sound_ucs2. Qed.
-Theorem C07_width_sound_eucjp : width_sound wd_eucjp (w_measured wd_eucjp). Proof. exact width_sound_eucjp. Qed.
+Theorem C07_width_sound :
+  width_sound wd_ascii w_1byte /\ width_sound wd_latin1 w_1byte /\ width_sound wd_cyrillic w_1byte /\
+  width_sound wd_hebrew w_1byte /\ width_sound wd_shiftjis w_multibyte /\ width_sound wd_euckr w_multibyte /\
+  width_sound wd_ucs2 w_utf16 /\ width_sound wd_eucjp (w_measured wd_eucjp).
+Proof. exact width_sound_all. Qed.
 Theorem C07_width_gsm7_code : forall r n wd, wd_find r wd_gsm7 = Some (n, wd) -> w_7bit r = N.to_nat wd.
 Proof. exact width_code_gsm7. Qed.
 Theorem C07_width_gsm7 : forall t S, to_septets t = Ok S -> total w_7bit t = 7 * septet_count t.
@@ -111,24 +108,17 @@ Proof. exact width_sound_iso2022jp_refuted. Qed.
 
 (* consequence: for these codings the size check never fires - an encodable text of at most 254
    parts is composed, never refused for size *)
-Theorem C07_no_size_refusal_gsm7 : forall ref t, compose_gsm7 ref t <> Err ESize.
-Proof. exact no_esize_gsm7. Qed.
-Theorem C07_no_size_refusal_ascii : forall ref t, compose_len w_1byte (enc_len_stateless wd_ascii) ref t <> Err ESize.
-Proof. exact no_esize_ascii. Qed.
-Theorem C07_no_size_refusal_latin1 : forall ref t, compose_len w_1byte (enc_len_stateless wd_latin1) ref t <> Err ESize.
-Proof. exact no_esize_latin1. Qed.
-Theorem C07_no_size_refusal_cyrillic : forall ref t, compose_len w_1byte (enc_len_stateless wd_cyrillic) ref t <> Err ESize.
-Proof. exact no_esize_cyrillic. Qed.
-Theorem C07_no_size_refusal_hebrew : forall ref t, compose_len w_1byte (enc_len_stateless wd_hebrew) ref t <> Err ESize.
-Proof. exact no_esize_hebrew. Qed.
-Theorem C07_no_size_refusal_shiftjis : forall ref t, compose_len w_multibyte (enc_len_stateless wd_shiftjis) ref t <> Err ESize.
-Proof. exact no_esize_shiftjis. Qed.
-Theorem C07_no_size_refusal_euckr : forall ref t, compose_len w_multibyte (enc_len_stateless wd_euckr) ref t <> Err ESize.
-Proof. exact no_esize_euckr. Qed.
-Theorem C07_no_size_refusal_ucs2 : forall ref t, compose_len w_utf16 (enc_len_stateless wd_ucs2) ref t <> Err ESize.
-Proof. exact no_esize_ucs2. Qed.
-Theorem C07_no_size_refusal_eucjp : forall ref t, compose_len (w_measured wd_eucjp) (enc_len_stateless wd_eucjp) ref t <> Err ESize.
-Proof. exact no_esize_eucjp. Qed.
+Theorem C07_no_size_refusal : forall ref t,
+  compose_gsm7 ref t <> Err ESize /\
+  compose_len w_1byte (enc_len_stateless wd_ascii) ref t <> Err ESize /\
+  compose_len w_1byte (enc_len_stateless wd_latin1) ref t <> Err ESize /\
+  compose_len w_1byte (enc_len_stateless wd_cyrillic) ref t <> Err ESize /\
+  compose_len w_1byte (enc_len_stateless wd_hebrew) ref t <> Err ESize /\
+  compose_len w_multibyte (enc_len_stateless wd_shiftjis) ref t <> Err ESize /\
+  compose_len w_multibyte (enc_len_stateless wd_euckr) ref t <> Err ESize /\
+  compose_len w_utf16 (enc_len_stateless wd_ucs2) ref t <> Err ESize /\
+  compose_len (w_measured wd_eucjp) (enc_len_stateless wd_eucjp) ref t <> Err ESize.
+Proof. exact no_esize_all. Qed.
 
 (* ---- GSM 7-bit: reassembly modulo the trailing-CR rule of C08, no panic, no divergence ---- *)
 Theorem C07_gsm7_lossless : forall ref t parts, compose_gsm7 ref t = Ok parts ->
